@@ -58,6 +58,33 @@ m("c12_queue_inplace_when_big", "C12", NP, "        return w + T * (d - q)", "  
 m("c12_turnrate_normalised_inplace", "C12 C14", ND, "            betas = engine.vcat(*(dlink.turnrate for _, _, dlink in links_down))\n", "            betas = engine.vcat(*(dlink.turnrate for _, _, dlink in links_down))\n            for _, _, dlink in links_down: dlink.turnrate = dlink.turnrate / sum(float(b) for b in [x[2].turnrate for x in links_down]) if not hasattr(dlink.turnrate, 'dep') else dlink.turnrate\n")
 m("c12_init_skip_if_same_shape", "C12", LK, "        self.states: dict[str, VarType] = {\n            name: (\n                init_conditions[name]\n                if name in init_conditions", "        self.states: dict[str, VarType] = {\n            name: (\n                init_conditions[name]\n                if name in init_conditions and not (self.states is not None and self.next_states is None)")
 
+# ---- C13
+CO = "engines/core.py"; DS = "blocks/destinations.py"
+m("c13_link_getflow", "C13", LK, "        q = self.get_flow(engine)\n", "        q = self.get_flow()\n")
+m("c13_link_upstream", "C13", LK, "node_up.get_upstream_speed_and_flow(net, self, engine, T=T)", "node_up.get_upstream_speed_and_flow(net, self, T=T)")
+m("c13_link_downstream", "C13", LK, "node_down.get_downstream_density(net, engine)", "node_down.get_downstream_density(net)")
+m("c13_link_qramp", "C13", LK, "q_ramp = origin.get_flow(net, T, engine)", "q_ramp = origin.get_flow(net, T)")
+m("c13_vsl_init", "C13", LK, "        super().init_vars(init_conditions, engine, **kwargs)", "        super().init_vars(init_conditions, **kwargs)")
+m("c13_node_destdensity", "C13", ND, "            return net.destinations_by_node[self].get_density(\n                net, engine=engine, **kwargs\n            )", "            return net.destinations_by_node[self].get_density(\n                net, **kwargs\n            )")
+m("c13_node_originflow", "C13", ND, "            q_o = origin.get_flow(net, engine=engine, **kwargs)", "            q_o = origin.get_flow(net, **kwargs)")
+m("c13_node_up1_flow", "C13", ND, "            q = link_up.get_flow(engine)[-1]\n", "            q = link_up.get_flow()[-1]\n")
+m("c13_node_upN_flow", "C13", ND, "                q_last.append(link_up.get_flow(engine)[-1])", "                q_last.append(link_up.get_flow()[-1])")
+m("c13_origin_ideal_flow", "C13", OR, "        return self._get_exiting_link(net).get_flow(engine)[0]", "        return self._get_exiting_link(net).get_flow()[0]")
+m("c13_mainstream_step", "C13", OR, "        q = self.get_flow(net, T, engine, **kwargs)\n        w_next = engine.origins.step_queue(\n            self.states[\"w\"], self.disturbances[\"d\"], q, T\n        )\n\n        if positive_next_queue:\n            w_next = engine.max(0, w_next)\n        return {\"w\": w_next}\n\n    def get_flow(  # type: ignore[override]\n        self,\n        net: \"Network\",\n        T: Union[VarType, float],\n        engine: Optional[EngineBase] = None,\n        **_,\n    ) -> VarType:\n        \"\"\"Computes the (upstream) flow induced by the mainstream", "        q = self.get_flow(net, T, **kwargs)\n        w_next = engine.origins.step_queue(\n            self.states[\"w\"], self.disturbances[\"d\"], q, T\n        )\n\n        if positive_next_queue:\n            w_next = engine.max(0, w_next)\n        return {\"w\": w_next}\n\n    def get_flow(  # type: ignore[override]\n        self,\n        net: \"Network\",\n        T: Union[VarType, float],\n        engine: Optional[EngineBase] = None,\n        **_,\n    ) -> VarType:\n        \"\"\"Computes the (upstream) flow induced by the mainstream")
+m("c13_simplified_init", "C13", OR, "        super().init_vars(init_conditions, engine, *args, **kwargs)", "        super().init_vars(init_conditions, None, *args, **kwargs)")
+m("c13_net_init", "C13", N, "                init_conditions=init_conditions.get(el),  # type: ignore[arg-type]\n                engine=engine,", "                init_conditions=init_conditions.get(el),  # type: ignore[arg-type]")
+m("c13_net_originstep", "C13", N, "                net=self,\n                engine=engine,\n                positive_next_queue", "                net=self,\n                positive_next_queue")
+m("c13_net_linkstep", "C13", N, "                net=self,\n                engine=engine,\n                positive_next_speed", "                net=self,\n                positive_next_speed")
+m("c13_tofunc_linkflow", "C13", CA, "        flows_link.append(link.get_flow(engine))", "        flows_link.append(link.get_flow())")
+m("c13_tofunc_originflow", "C13", CA, "            origin.get_flow(net, engine=engine, **parameters, **other_parameters)", "            origin.get_flow(net, **parameters, **other_parameters)")
+m("c13_use_clobber_on_bad", "C13", CO, "        if engine not in engines:\n            raise EngineNotFoundError(", "        if engine not in engines:\n            sym_metanet.engine = None\n            raise EngineNotFoundError(")
+m("c13_use_instance_copy", "C13", CO, "    if isinstance(engine, EngineBase):\n        sym_metanet.engine = engine", "    if isinstance(engine, EngineBase):\n        import copy\n        sym_metanet.engine = copy.copy(engine)")
+m("c13_current_cached", "C13", CO, "        The current symbolic engine.\n    \"\"\"\n    return sym_metanet.engine\n", "        The current symbolic engine.\n    \"\"\"\n" + "    global _CUR\n    try:\n        return _CUR\n    except NameError:\n        _CUR = sym_metanet.engine\n        return _CUR\n")
+m("c13_use_bad_valueerror", "C13", CO, "            raise EngineNotFoundError(\n", "            raise ValueError(\n")
+m("c13_use_lower", "C13", CO, "        engines = get_available_engines()\n        if engine not in engines:", "        engines = get_available_engines()\n        engine = engine.lower() if isinstance(engine, str) else engine\n        if engine not in engines:")
+m("c13_step_sets_engine", "C13", N, "        # initialization\n        if init_conditions is None:", "        # initialization\n        if engine is not None:\n            import sym_metanet\n            sym_metanet.engine = engine\n        if init_conditions is None:")
+m("c13_dest_density_congested", "C13", DS, "        if engine is None:\n            engine = get_current_engine()\n        link_up = self._get_entering_link(net)\n        return engine.destinations.get_congested_downstream_density(", "        engine = get_current_engine()\n        link_up = self._get_entering_link(net)\n        return engine.destinations.get_congested_downstream_density(")
+
 def run(prop, src, runs):
     env = dict(os.environ, SYM_METANET_SRC=src)
     p = subprocess.run(["/venv/bin/python", "-m", "sim.check", prop, "--runs", str(runs), "--no-evidence"], cwd="/verif", env=env, capture_output=True, text=True, timeout=1800)
